@@ -2,7 +2,7 @@ use c04::tree::{Case, Form, IdForm, Incoming, Item, Node, RngKind};
 use vcore::proptest::prelude::*;
 use vcore::Level;
 
-const RULE: &str = "a case is a span tree as data (<=24 span nodes, nesting depth <=6): every node has a form (attribute on sync fn / async fn, new_span! with Frame::call / Frame::enter / Frame::in_future, guard: parameter sync / async, when: parameter, ok_lvl/err_lvl Result-returning sync / async fn), an enabled flag (disabled = rejected by the runtime filter through its module, or by `when`), and a body of child spans, emit! events, SpanCtxt::current checks, yields, thread hops (with or without a carried Frame::current, entered by call or in_future) and joins of async tasks polled by a generated schedule; optionally incoming trace/span ids are pushed before the root as typed values, lower/upper-case hex strings or integers; the rng is a non-repeating counter (or yields nothing). It is interpreted by fixed macro call sites on a private runtime and judged relationally from the recorded events. Non-trivial = span nesting depth >=3, or a disabled node with an enabled descendant, or an async join, or a thread hop, or incoming ids given as hex strings.";
+const RULE: &str = "a case is a span tree as data (<=24 span nodes, nesting depth <=6): every node has a form (attribute on sync fn / async fn, new_span! with Frame::call / Frame::enter / Frame::in_future, guard: parameter sync / async, when: parameter, ok_lvl/err_lvl Result-returning sync / async fn, and four hand-off forms where the frame returned by new_span! itself is moved to a fresh thread and entered there by call / in_fn / enter (guard completed there or back on the parent inside the frame) or is polled through in_future alternately on fresh threads and the awaiting thread), an enabled flag (disabled = rejected by the runtime filter through its module, or by `when`), and a body of child spans, emit! events, SpanCtxt::current checks, yields, thread hops (with or without a carried Frame::current, entered by call or in_future) and joins of async tasks polled by a generated schedule; optionally incoming trace/span ids are pushed before the root as typed values, lower/upper-case hex strings or integers; the rng is a non-repeating counter (or yields nothing). It is interpreted by fixed macro call sites on a private runtime and judged relationally from the recorded events. Non-trivial = span nesting depth >=3, or a disabled node with an enabled descendant, or an async join, or a thread hop, or incoming ids given as hex strings.";
 
 const ASSUMPTIONS: [&str; 6] = [
     "the oracle never predicts which id the rng hands out: each enabled span's ids are read from its own span event (identified by a unique module name) and only the relations stated by the property are demanded",
@@ -25,6 +25,10 @@ fn form() -> impl Strategy<Value = Form> {
         1 => Just(Form::ManualFuture),
         1 => Just(Form::GuardAsync),
         1 => Just(Form::ResultAsync),
+        1 => Just(Form::HandoffCall),
+        1 => Just(Form::HandoffInFn),
+        1 => Just(Form::HandoffEnterBack),
+        2 => Just(Form::HandoffFuture),
     ]
 }
 
@@ -117,6 +121,8 @@ fn main() {
         s.require("async-join-polls-migrate-threads", 50);
         s.require("thread-hop-carried-frame", 100);
         s.require("integer-ids", 100);
+        s.require("own-frame-handoff-disabled-with-descendants", 100);
+        s.require("own-frame-handoff-enabled-with-descendants", 100);
         s.require("empty-rng", 50);
         s.gen("span-trees", s.n(20_000, 600_000), case, c04::check_case);
     })
